@@ -924,6 +924,12 @@ func (e *Env) call(x *SExpr) Val {
 				// typeIs(ifaceValue, T)
 				a := e.tr(x.Args[0])
 				t, _ := e.resolveType(x.Args[1].String())
+				if t != nil {
+					if _, isI := types.Unalias(t).Underlying().(*types.Interface); isI {
+						// an interface type: the dynamic type implements it (as the type switch / assertion does)
+						return boolVal(fmt.Sprintf("(and (not (= %s %s)) (implements (i.tag %s) %s))", a.T, ifaceNil, a.T, e.sorts().typeTag(t)))
+					}
+				}
 				return boolVal(fmt.Sprintf("(= (i.tag %s) %s)", a.T, e.sorts().typeTag(t)))
 			case "bytesOf":
 				a := e.tr(x.Args[0])
